@@ -5,7 +5,7 @@ b. in sample the shape argument is the table's dod and the probability argument 
    the result is the lambda used by the momentum map and reported in the metadata;
 c. the Err of the quantile never reaches an Ok sample.
 """
-from ..vals import Vals, callee_is, norm_path, Root
+from ..vals import Vals, callee_is, norm_path, Root, bool_edges
 from ..roles import RoleLost
 from .. import pat
 from ..f64facts import classes_at, POS
@@ -231,8 +231,182 @@ def rule_e(ctx, R):
            "panic-scan-floor")
 
 
+A_DOMAIN = [(0.05, True, 100.0, True)]      # shapes of the statement
+TOL = 2e-8                                   # |P(a, lambda) - p| of the statement
+LIP_AT_ONE = 0.4916                          # sup_x |dP(a,x)/da| at a = 1 (= 0.49153.., attained at x = exp(-EulerGamma))
+Q_MIN_TIMES_GAMMA_MIN = 2.0 ** -53 * 0.8856  # q = 1 - p >= 2^-53 for p < 1 in f64; min_{a>0} Gamma(a) = 0.8856..
+
+
+def local_deps(body, v, start):
+    """Locals (whole) the value of local `start` is computed from, through every definition (assignments and call results)."""
+    seen, work = set(), [start]
+    while work:
+        l = work.pop()
+        if l in seen:
+            continue
+        seen.add(l)
+        for d in v.defs.get(l, []):
+            ops = []
+            if d[0] == "stmt":
+                rv = d[3]
+                for k in ("op", "a", "b"):
+                    if k in rv and isinstance(rv[k], dict):
+                        ops.append(rv[k])
+                ops += rv.get("ops", [])
+                if rv["k"] == "ref":
+                    work.append(rv["place"]["l"])
+            elif d[0] == "call":
+                ops += d[2]["args"]
+            for o in ops:
+                if o.get("k") in ("copy", "move"):
+                    work.append(o["place"]["l"])
+    return seen
+
+
+def rule_f(ctx, R):
+    """Accuracy certificate: which values can the f64 routine return, and what vouches for each."""
+    from .. import intervals as iv
+    from .. import cfg
+    ctx.rule("C12-f", "every value the f64 routine returns for a shape in [0.05, 100] is (1) the Newton iterate x certified in the same iteration by "
+                      "|P(a,x) − p| (or |Q(a,x) − q|) < ε, (2) the iterate left when the iterations are exhausted (accuracy not decided), or (3) a closed "
+                      "form reachable only for |a − 1| ≤ w with 0.4916·w ≤ 2e-8 (exact at a = 1) or only when q·Γ(a) ≤ c < 2^-53·min Γ (impossible for p < 1)")
+    try:
+        q = R.quantile()
+    except RoleLost as e:
+        return ctx.lost("C12-f", str(e))
+    impls = [cb for bi, t, cb in R.local_callees(q) if not t["callee"].get("trait")]
+    if len(impls) != 1:
+        return ctx.lost("C12-f", "the f64 quantile routine (callee of inverse_gamma_lr)", q.path)
+    body = impls[0]
+    fn = body.path
+    ctx.fn(fn)
+    v = Vals(body)
+    f64_args = [l["i"] for l in body.locals[1:body.arg_count + 1] if l["ty"] == "f64"]
+    if len(f64_args) < 2:
+        return ctx.lost("C12-f", "the (a, p) parameters of the f64 routine", fn)
+    a_arg, p_arg = f64_args[0], f64_args[1]
+    heads = common.loop_next_sites(body, v)
+    if len(heads) != 1:
+        return ctx.lost("C12-f", "the single iteration loop of the f64 routine (found %d)" % len(heads), fn)
+    nbb, sbb, some_t, none_t, nt = heads[0]
+    loop_blocks = body.reachable_from(some_t, avoid=frozenset([nbb]))
+    after = body.reachable_from(none_t)
+    IN = iv.reach(ctx.facts, body, Root(("arg", a_arg), ()), A_DOMAIN, v)
+    tcd = cfg.transitive_control_deps(body, acyclic=True)
+    statrs_sites = [(bi, t) for bi, t in body.calls() if (t.get("callee") or {}).get("crate") == "statrs"
+                    and t["callee"].get("name") in ("gamma_lr", "gamma_ur", "checked_gamma_lr", "checked_gamma_ur") and bi in loop_blocks]
+    rets = [(bi, st) for bi, si, st in pat.stmts(body) if st["place"]["l"] == 0 and not st["place"]["p"]]
+    kinds = {"certified": 0, "exhausted": 0, "closed-form": 0, "unreachable": 0}
+    iter_local = None
+    for bi, st in rets:
+        rv = st["rv"]
+        vr = v.root(rv["op"]) if rv["k"] == "use" else None
+        wh = pat.where(st)
+        if bi in loop_blocks:
+            # (1) certified by the convergence test
+            ok, why = False, "no `|err| < ε` comparison controls this return"
+            for (sb, tgt) in tcd[bi]:
+                c = v.classify_bool(body.blocks[sb]["term"]["discr"])
+                if not c or c[0] != "binop" or c[1]["op"] not in ("Lt", "Le"):
+                    continue
+                te, fe = bool_edges(body, sb)
+                if tgt != te:
+                    continue
+                lt = v.call_term(v.root(c[1]["a"]))
+                if lt is None or (lt.get("callee") or {}).get("name") != "abs":
+                    why = "the comparison's left side is not an absolute value"
+                    continue
+                er = v.root(lt["args"][0])
+                deps = local_deps(body, v, er.base[1]) if er.kind == "local" else set()
+                feeding = [(cbi, ct) for cbi, ct in statrs_sites if ct["dest"]["l"] in deps]
+                if not feeding:
+                    why = "the tested error is not computed from the incomplete gamma function"
+                    continue
+                same_x = vr is not None and all(v.root(ct["args"][1]) == vr for _c, ct in feeding)
+                a_ok = all((lambda r_: r_.kind == "arg" and r_.base[1] == a_arg)(v.root(ct["args"][0])) for _c, ct in feeding)
+                p_dep = p_arg in [r_ for r_ in ()]  # placeholder (target p / q is part of err by construction below)
+                if not same_x or not a_ok:
+                    why = "the certified point differs from the returned value (returned %r)" % (vr,)
+                    continue
+                # no assignment to x between its evaluation and the return
+                dirty = []
+                if vr.kind == "local":
+                    reach_ret = set(b for b in loop_blocks if bi in body.reachable_from(b, avoid=frozenset([nbb])))
+                    for cbi, _ct in feeding:
+                        region = body.reachable_from(cbi, avoid=frozenset([nbb])) & reach_ret
+                        for b2, si2, st2 in pat.stmts(body):
+                            if b2 in region and b2 != cbi and st2["place"]["l"] == vr.base[1] and not st2["place"]["p"]:
+                                dirty.append(pat.where(st2))
+                if dirty:
+                    why = "the iterate is modified between its evaluation and the return (%s)" % dirty
+                    continue
+                ok, why = True, "guard at %s" % pat.where(body.blocks[sb]["term"])
+                iter_local = vr
+            kinds["certified"] += 1 if ok else 0
+            ctx.ob("C12-f", "return at %s inside the iteration is certified by the convergence test (%s)" % (wh, why), ok, fn, "return:in-loop", where=wh,
+                   detail="a value is returned from inside the Newton loop without the same iterate having passed |P(a,x) − p| < ε: %s" % why)
+            continue
+        if bi in after and vr is not None:
+            kinds["exhausted"] += 1
+            ctx.ob("C12-f", "return at %s after the loop hands back the iterate (non-converged exit; accuracy of this exit is not decided)" % wh,
+                   iter_local is None or vr == iter_local, fn, "return:after-loop", where=wh,
+                   detail="the value returned after the loop (%r) is not the certified iterate (%r)" % (vr, iter_local))
+            continue
+        # closed form before the loop
+        reach_a = IN.get(bi)
+        if not reach_a:
+            kinds["unreachable"] += 1
+            ctx.ob("C12-f", "closed-form return at %s is unreachable for shapes in [0.05, 100]" % wh, True, fn, "return:closed-form", where=wh)
+            continue
+        lo, hi = reach_a[0][0], reach_a[-1][2]
+        w = max(abs(lo - 1.0), abs(hi - 1.0))
+        if LIP_AT_ONE * w <= TOL:
+            kinds["closed-form"] += 1
+            ctx.ob("C12-f", "closed-form return at %s is taken only for |a − 1| ≤ %.3g (error ≤ 0.4916·w = %.2g ≤ 2e-8)" % (wh, w, LIP_AT_ONE * w), True, fn,
+                   "return:closed-form", where=wh)
+            continue
+        # q·Γ(a) ≤ c guard
+        ok5, c5 = False, None
+        for (sb, tgt) in tcd[bi]:
+            c = v.classify_bool(body.blocks[sb]["term"]["discr"])
+            if not c or c[0] != "binop" or c[1]["op"] not in ("Lt", "Le"):
+                continue
+            te, fe = bool_edges(body, sb)
+            cst = iv.const_value(ctx.facts, body, v, c[1]["b"])
+            br = v.root(c[1]["a"])
+            if tgt != te or not isinstance(cst, float) or br.kind != "local":
+                continue
+            rvb = v.rvalue_of(br)
+            if rvb is None or rvb["k"] != "binop" or rvb["op"] != "Mul":
+                continue
+            sides = [v.root(rvb["a"]), v.root(rvb["b"])]
+            is_q = is_g = False
+            for sd in sides:
+                rq = v.rvalue_of(sd) if sd.kind == "local" else None
+                if rq is not None and rq["k"] == "binop" and rq["op"] == "Sub" and iv.const_value(ctx.facts, body, v, rq["a"]) == 1.0:
+                    pr = v.root(rq["b"])
+                    is_q = is_q or (pr.kind == "arg" and pr.base[1] == p_arg)
+                tg = v.call_term(sd)
+                if tg is not None and (tg.get("callee") or {}).get("crate") == "statrs" and tg["callee"].get("name") == "gamma":
+                    ar = v.root(tg["args"][0])
+                    is_g = is_g or (ar.kind == "arg" and ar.base[1] == a_arg)
+            if is_q and is_g and cst < Q_MIN_TIMES_GAMMA_MIN:
+                ok5, c5 = True, cst
+        if ok5:
+            kinds["unreachable"] += 1
+            ctx.ob("C12-f", "closed-form return at %s needs (1−p)·Γ(a) ≤ %.3g < 2^-53·min Γ: impossible for p < 1 in f64" % (wh, c5), True, fn,
+                   "return:closed-form", where=wh)
+            continue
+        ctx.ob("C12-f", "closed-form return at %s is confined to a neighbourhood of a = 1" % wh, False, fn, "return:closed-form", where=wh,
+               detail="an uncertified closed-form value is returned for shapes %s (|a − 1| up to %.3g): it never passes the convergence test, and for a ≠ 1 "
+                      "its error against P(a,·) is not bounded by 2e-8 (for the exponential form the error is 0.4916·|a − 1|)"
+                      % (["%s%.9g, %.9g%s" % ("[" if x[1] else "(", x[0], x[2], "]" if x[3] else ")") for x in reach_a], w))
+    ctx.ob("C12-f", "returns classified: %s" % kinds, kinds["certified"] >= 1 and len(rets) >= 3, fn, "return-census")
+
+
 def run(ctx):
     rule_a(ctx, ctx.roles)
     rule_bc(ctx, ctx.roles)
     rule_d(ctx, ctx.roles)
     rule_e(ctx, ctx.roles)
+    rule_f(ctx, ctx.roles)
